@@ -189,6 +189,64 @@ func (c *Ctx) methodsOf(n *types.Named) map[string]*ast.FuncDecl {
 			out[m.Name()] = fd
 		}
 	}
+	// methods promoted from private struct types of the same package that the type embeds (a
+	// helper struct that carries part of the state and the methods that work on it)
+	var promoted func(t *types.Named, depth int)
+	promoted = func(t *types.Named, depth int) {
+		st, ok := t.Underlying().(*types.Struct)
+		if !ok || depth > 2 {
+			return
+		}
+		for i := 0; i < st.NumFields(); i++ {
+			f := st.Field(i)
+			if !f.Embedded() {
+				continue
+			}
+			en := derefNamed(f.Type())
+			if en == nil || en.Obj().Pkg() != n.Obj().Pkg() || en.Obj().Exported() {
+				continue
+			}
+			if _, isStruct := en.Underlying().(*types.Struct); !isStruct {
+				continue
+			}
+			en = en.Origin()
+			for k := 0; k < en.NumMethods(); k++ {
+				m := en.Method(k)
+				if fd := c.decls[m]; fd != nil && out[m.Name()] == nil {
+					out[m.Name()] = fd
+				}
+			}
+			promoted(en, depth+1)
+		}
+	}
+	promoted(n, 0)
+	return out
+}
+
+// flatFields lists the fields of a struct type, those of embedded private struct types of the
+// same package included (in place of the embedding field).
+func flatFields(n *types.Named) []*types.Var {
+	var out []*types.Var
+	var walk func(t *types.Named, depth int)
+	walk = func(t *types.Named, depth int) {
+		st, ok := t.Origin().Underlying().(*types.Struct)
+		if !ok {
+			return
+		}
+		for i := 0; i < st.NumFields(); i++ {
+			f := st.Field(i)
+			if en := derefNamed(f.Type()); f.Embedded() && en != nil && en.Obj().Pkg() == n.Obj().Pkg() && !en.Obj().Exported() && depth < 2 {
+				if _, isStruct := en.Underlying().(*types.Struct); isStruct {
+					walk(en, depth+1)
+					continue
+				}
+			}
+			out = append(out, f)
+		}
+	}
+	if n != nil {
+		walk(n, 0)
+	}
 	return out
 }
 
